@@ -1208,7 +1208,9 @@ class TokenizerCore:
                     text += self._char + self._peek
 
                 if self._current + 1 < self.size:
-                    self._advance(2)
+                    # One character at a time: the escaped character may be a line break
+                    self._advance()
+                    self._advance()
                 else:
                     raise TokenError(f"Missing {delimiter} from {self._line}:{self._current}")
             else:
